@@ -60,7 +60,10 @@ def load_known() -> list[dict]:
     if not os.path.exists(KNOWN):
         return []
     doc = json.load(open(KNOWN, encoding="utf-8"))
-    return [f for f in doc.get("findings", []) if f.get("status") == "known"]
+    out = [dict(f) for f in doc.get("findings", []) if f.get("status") == "known"]
+    for f in out:
+        f["canonical"] = canonical(f["program"])
+    return out
 
 
 _TOKEN = re.compile(r'"(?:[^"\\]|\\.)*"|#?[A-Za-z_][A-Za-z0-9_\']*|\d+|\S')
